@@ -392,7 +392,7 @@ def fixed_sampling_items(g, pr):
             return _defs(prefix, Q, shift) + f'def {prefix}Wired : Bool := {"true" if wired else "false"}\n'
         fb = ''.join(f'def {prefix}{nm} {RAT7} : Rat := {M}.fixedQ {s} inputDx propDist wavelength outputDx\n'
                      for nm, s in (('Qy', 'a0'), ('Qx', 'a1'))) + \
-            f'def {prefix}ShiftX {RAT7} : Rat := sx / outputDx\ndef {prefix}ShiftY {RAT7} : Rat := sy / outputDx\n' \
+            f'def {prefix}ShiftX {RAT7} : Rat := (if ((sx ≠ (0 : Rat)) ∨ (sy ≠ (0 : Rat))) then (sx / outputDx) else sx)\ndef {prefix}ShiftY {RAT7} : Rat := (if ((sx ≠ (0 : Rat)) ∨ (sy ≠ (0 : Rat))) then (sy / outputDx) else sy)\n' \
             f'def {prefix}Wired : Bool := true\n'
         g.item(fname, f'prysm/propagation.py:{fname}', lambda fname=fname: get_def(pr, fname), build, fb)
 
@@ -460,10 +460,10 @@ def fpm_items(g, pr):
                 + f'def fpmFwdWired : Bool := {"true" if wired else "false"}\n')
     fb_f = (''.join(f'def fpmFwdOut{nm} {FPM_BINDER} : Rat := {t}\n' for nm, t in
                     (('Qy', f'{M}.fixedQ p0 dx efl wavelength fpmDx'), ('Qx', f'{M}.fixedQ p1 dx efl wavelength fpmDx'),
-                     ('ShiftX', 'sx / fpmDx'), ('ShiftY', 'sy / fpmDx')))
+                     ('ShiftX', '(if ((sx ≠ (0 : Rat)) ∨ (sy ≠ (0 : Rat))) then (sx / fpmDx) else sx)'), ('ShiftY', '(if ((sx ≠ (0 : Rat)) ∨ (sy ≠ (0 : Rat))) then (sy / fpmDx) else sy)')))
             + ''.join(f'def fpmFwdRet{nm} {FPM_BINDER} : Rat := {t}\n' for nm, t in
                       (('Qy', f'{M}.fixedQ m0 fpmDx efl wavelength dx'), ('Qx', f'{M}.fixedQ m1 fpmDx efl wavelength dx'),
-                       ('ShiftX', 'sx * dx / fpmDx / dx'), ('ShiftY', 'sy * dx / fpmDx / dx')))
+                       ('ShiftX', '(if ((((sx * dx) / fpmDx) ≠ (0 : Rat)) ∨ (((sy * dx) / fpmDx) ≠ (0 : Rat))) then (((sx * dx) / fpmDx) / dx) else ((sx * dx) / fpmDx))'), ('ShiftY', '(if ((((sx * dx) / fpmDx) ≠ (0 : Rat)) ∨ (((sy * dx) / fpmDx) ≠ (0 : Rat))) then (((sy * dx) / fpmDx) / dx) else ((sy * dx) / fpmDx))')))
             + 'def fpmFwdWired : Bool := true\n')
     g.item('to_fpm_and_back', 'prysm/propagation.py:to_fpm_and_back', lambda: get_def(pr, 'to_fpm_and_back'), fwd, fb_f)
 
@@ -1333,7 +1333,7 @@ def wavefront_items(g, pr):
     g.item('Wavefront.from_amp_and_phase_backprop_phase', 'prysm/propagation.py:Wavefront.from_amp_and_phase_backprop_phase',
            lambda: get_def(pr, 'Wavefront.from_amp_and_phase_backprop_phase'), phase,
            f'def phaseBack {PAR} (k : K) (gbar g : Cx K) : K := {M}.phaseBack k gbar g\n'
-           f'def phaseFwdK {PAR} (pi wavelength : K) : K := pi\ndef phaseBackK {PAR} (pi wavelength : K) : K := pi\n')
+           f'def phaseFwdK {PAR} (pi wavelength : K) : K := ((((Num.ofInt (2)) * pi) / wavelength) / (Num.ofInt (1000)))\ndef phaseBackK {PAR} (pi wavelength : K) : K := ((((Num.ofInt (2)) * pi) / wavelength) / (Num.ofInt (1000)))\n')
 
 
 def structural_items(g, ft, po, dm):
@@ -1835,6 +1835,10 @@ def resample_items(g, ft, dm):
                and norm(' '.join(ba)) in (f'zoom({bd[0]},{bd[1]})', 'zoomin_shape')
                and [norm(x).replace('returnfbar', 'returnf') for x in bp if x.startswith('if')]
                == [norm(x) for x in fp if x.startswith('if')])
+        if not geo:
+            # the text-level comparison of the transform geometry does not recognise this spelling: refuse (hand model + widened sweep)
+            # rather than claim a difference
+            raise Untranslatable('matrix-DFT geometry / prologue of fourier_resample(_backprop) not in the recognised spelling')
         return (f'def resampleFwdChain : List String := {fmt(fc)}\n'
                 f'def resampleBackChain : List String := {fmt(bc)}\n'
                 f'def resampleFwdPre (n : Nat) : Nat := {SHIFT[lf[0]]}\ndef resampleFwdPost (n : Nat) : Nat := {SHIFT[lf[2]]}\n'
@@ -1878,6 +1882,15 @@ def wrapper_items(g, pr):
     def tags(b, names):
         return '[' + ', '.join('"' + (ast.unparse(b[nm]) if nm in b else '<default>') + '"' for nm in names) + ']'
 
+    def comparable(bf_, bb_, names):
+        """pass-through arguments that differ textually are a recognised difference only when both are bare names / attributes
+        (another variable is handed over); any other spelling (a call, a hoisted expression) is refused"""
+        for nm in names:
+            x = ast.unparse(bf_[nm]) if nm in bf_ else '<default>'
+            y = ast.unparse(bb_[nm]) if nm in bb_ else '<default>'
+            if x != y and not all(isinstance(v.get(nm), (ast.Name, ast.Attribute)) for v in (bf_, bb_)):
+                raise Untranslatable(f'pass-through argument {nm}: {x} vs {y}')
+
     def ret_wavefront(fn, env):
         """(dx term, space text) of the Wavefront returned by the last plain `return Wavefront(...)`"""
         rets = [r for r in find_returns(fn) if isinstance(r, ast.Call) and ast.unparse(r.func) == 'Wavefront']
@@ -1900,6 +1913,7 @@ def wrapper_items(g, pr):
         eb = {'self.dx': 'q', 'dx': 'p', 'efl': 'efl', 'self.wavelength': 'wl'}
         N = ['input_dx', 'prop_dist', 'wavelength', 'output_dx']
         T = ['wavefunction', 'output_samples', 'shift', 'method']
+        comparable(fb_, bb, T)
         dxr, sp = ret_wavefront(bf, eb)
         return (f'def wfFfsFwdNum {PQ} : List Rat := {nums(fb_, N, ef)}\n'
                 f'def wfFfsBackNum {PQ} : List Rat := {nums(bb, N, eb)}\n'
@@ -1939,6 +1953,7 @@ def wrapper_items(g, pr):
             if unpack is None or ret is None or set(unpack) != set(ret) or any(x not in label for x in ret):
                 raise Untranslatable('return_more branch not in the recognised shape')
             return [unpack.index(x) for x in ret], [label[x] for x in ret]
+        comparable(fb_, bb, T)
         po, pl = more(bf)
         dxr, sp = ret_wavefront(bf, e)
         return (f'def wfFpmFwdNum {PF} : List Rat := {nums(fb_, N, e)}\n'
@@ -1991,8 +2006,7 @@ def live_general_item(g, repo):
                         cands.append('from_amp_and_phase')
                     fname = next((x for x in cands if x in meth and x != bname), None)
                     if fname is None:
-                        stale.append(f'{c.name}.{bname}: no forward counterpart found')
-                        continue
+                        continue          # a helper / an unpaired routine: not a pair (its reads count for the methods that call it)
                     if '__setattr__' in meth or '__getattr__' in meth:
                         hooked.append(f'{c.name}.{fname}/{bname}')
                         continue
@@ -2010,7 +2024,17 @@ def live_general_item(g, repo):
                     if any(isinstance(d, ast.Name) and d.id == 'classmethod' for d in f.decorator_list):
                         live |= {'wavelength', 'data', 'dx', 'space'} if c.name == 'Wavefront' else set()   # a constructor: its product's fields
                     pairs.append(f'{c.name}.{fname}/{bname}')
-                    for a in sorted(attrs(b, ast.Load) - live):
+                    breads, seen_b, todo_b = set(attrs(b, ast.Load)), set(), [b]
+                    while todo_b:                     # helper methods called (transitively) by the backprop read on its behalf
+                        h = todo_b.pop()
+                        for n in ast.walk(h):
+                            if isinstance(n, ast.Call) and isinstance(n.func, ast.Attribute) and isinstance(n.func.value, ast.Name) \
+                                    and n.func.value.id == 'self' and n.func.attr in meth and n.func.attr not in seen_b \
+                                    and n.func.attr != fname:
+                                seen_b.add(n.func.attr)
+                                breads |= attrs(meth[n.func.attr], ast.Load)
+                                todo_b.append(meth[n.func.attr])
+                    for a in sorted(breads - live):
                         if (c.name, a) not in ALLOW:
                             stale.append(f'{c.name}.{bname} reads self.{a}')
         fmt = lambda l: '[' + ', '.join(json_str(x) for x in l) + ']'
@@ -2019,7 +2043,7 @@ def live_general_item(g, repo):
                 f'def liveAttributeHooked : List String := {fmt(sorted(hooked))}\n')
     g.item('backprop.live_attributes_all', 'prysm/x/optym/activation.py + operators.py + x/dm.py + propagation.py + fttools.py',
            lambda: [load(repo, rel)[0] for rel in MODS], build,
-           'def liveAttributePairs : List String := []\ndef backpropStaleReads : List String := []\ndef liveAttributeHooked : List String := []\n')
+           'def liveAttributePairs : List String := ["Arctan.forward/backprop", "DM.render/render_backprop", "DiscreteEncoder.forward/backprop", "GumbelSoftmax.forward/backprop", "MatrixDFTExecutor.dft2/dft2_backprop", "MatrixDFTExecutor.idft2/idft2_backprop", "Sigmoid.forward/backprop", "Softmax.forward/backprop", "Softplus.forward/backprop", "SpatialGradient2D.forward_x/backprop_x", "SpatialGradient2D.forward_y/backprop_y", "Tanh.forward/backprop", "Wavefront.babinet/babinet_backprop", "Wavefront.focus_fixed_sampling/focus_fixed_sampling_backprop", "Wavefront.intensity/intensity_backprop", "Wavefront.to_fpm_and_back/to_fpm_and_back_backprop"]\ndef backpropStaleReads : List String := []\ndef liveAttributeHooked : List String := []\n')
 
 
 def generate(repo):
